@@ -6,8 +6,11 @@ EXPLANATION = ("Path-sensitive abstract interpretation of one iteration of the t
                "trailing-context table; end, token type and extent must be written together from one candidate; Option "
                "typestate discharges the unwraps. Integers are only inspected through comparisons, so the finite set of order "
                "outcomes covers all inputs. The lookahead automaton's own language is C02.")
-RULES = {"C05.a", "C05.b", "C05.c", "C05.d", "C04.e"}
+RULES = {"C05.a", "C05.b", "C05.c", "C05.d", "C04.e", "C01.c"}
 
 
 def check(ctx):
     kernel.analyze(ctx, RULES)
+    # 'the pattern listed first' = first position in terminal_ids, built in pattern order
+    from .pC01 import priority_rules
+    priority_rules(ctx)
